@@ -449,6 +449,30 @@ def _autoshapes(ctx, prog, S, M):
     else:
         ctx.violation("R20.4", "AutoShapeType.id_from_prst", "reader is not MSO_AUTO_SHAPE_TYPE.from_xml(prst)", file=idf.file,
                       line=idf.line)
+    # every basename of the table must survive the quoting context it is written into (shape name attribute):
+    # the sanitiser in AutoShapeType.basename must cover the metacharacters that occur in the table
+    bn = ast_cls.methods.get("basename")
+    if bn is None:
+        raise AnalysisError("anchor vanished: AutoShapeType.basename")
+    chars = set()
+    for name, (kv, row, line) in rows.items():
+        b = row.get("basename")
+        if isinstance(b, str):
+            chars |= set(b) & set('&<>"\'')
+    esc = [n for n in ast.walk(bn.node) if isinstance(n, ast.Call) and (dotted(n.func) or "").endswith("escape")]
+    covered = set()
+    for c_ in esc:
+        covered |= {"&", "<", ">"}
+        if len(c_.args) > 1:
+            mp = prog.const(c_.args[1], bn.module)
+            if isinstance(mp, dict):
+                covered |= set(mp)
+    if chars <= covered:
+        ctx.ok("R20.4", "AutoShapeType.basename", sample={"metacharacters_in_table": sorted(chars), "escaped": sorted(covered)})
+    else:
+        ctx.violation("R20.4", "AutoShapeType.basename", "auto-shape base names contain %s but the name is only sanitised for %s "
+                      "before it is written into the double-quoted name attribute: add_shape() of that type fails to parse" % (
+                          sorted(chars - covered), sorted(covered)), file=bn.file, line=bn.line)
     # the attribute declaration on a:prstGeom is typed with the enum
     pg = prog.cls("pptx.oxml.shapes.autoshape", "CT_PresetGeometry2D")
     d = [a for a in M.attr_decls(pg) if a.attr == "prst"]
